@@ -720,6 +720,19 @@ func Exec(sc sim.Script) *sim.Outcome {
 				n.Clone()
 				n.GetVersion()
 				n.GetOrigin()
+				// Decode is an exported method: a node that already exists (here a structural copy of the accepted
+				// one) may be asked to decode the body of another real encoding of its kind
+				if len(vb) > 17 {
+					for _, other := range c.nodeEnc {
+						if len(other) > 17 && other[0] == vb[0] {
+							cl := n.CloneNode()
+							cl.Decode(other[17:])
+							cl.Encode()
+							r.stats.Inc("probe.decode-into-an-existing-node")
+							break
+						}
+					}
+				}
 				// the value node embedded in an accepted leaf or branch is a node in its own right
 				if vn := util.GetValueNode(n); vn != nil {
 					r.stats.Inc("probe.embedded-value-node-re-encoded")
